@@ -1,269 +1,411 @@
-"""C14 -- coordinate systems and rigid-body geometry (thin partial claim)."""
+"""C14 -- coordinate systems and rigid-body geometry (thin partial claim).
+
+Every rule is decided on *values*: the functions are evaluated on symbols (verifier/c14_sem.py, on top of AutoEvaluator), regime by
+regime, and the values that reach a return, a store or a call are compared with the geometric meaning - never with a spelling."""
 from __future__ import annotations
 
 import ast
+from fractions import Fraction
 
 from . import e2_formula as F
+from . import c14_sem as G
 from .core import AnchorError, Unsupported
-from .e1_srcmodel import dotted, walk_no_nested, parent, ancestors, utext
-from .e2_eval import Evaluator, Unknown, is_unknown, need
+from .e2_eval import is_unknown
 
 N2P = "pyyeti/nastran/n2p.py"
+PI = F.sym("pi")
+# API of the module whose *calls* the rules speak about (never inlined, whatever their spelling)
+PUBLIC_STOPS = ("_get_loc_a_basic", "_mkusetcoordinfo_byid")
 
 
-def _atan2_args(r):
-    """Rat that is c * atan2(y, x) -> (c, y, x)"""
-    r = need(r)
-    atoms = [a for a in r.n.atoms() if F.atom_desc(a)[0] == "fn" and F.atom_desc(a)[1] == "atan2"]
-    if len(atoms) != 1:
-        return None
-    d = F.atom_desc(atoms[0])
-    y = F.Rat(F._poly_from_key(d[2][0][1]), F._poly_from_key(d[2][0][2]))
-    x = F.Rat(F._poly_from_key(d[2][1][1]), F._poly_from_key(d[2][1][2]))
-    coef = r / F.Rat(F.Poly.atom(atoms[0]))
-    if coef.depends_on("___") or any(F.atom_desc(a)[0] == "fn" for a in coef.n.atoms() | coef.d.atoms()):
-        return None
-    return coef, y, x
+def _show(v, n=300):
+    s = repr(v)
+    return s if len(s) <= n else s[:n] + "..."
 
 
-def _calls(node, ev):
-    d = dotted(node.func) or ""
-    if d in ("math.hypot", "np.hypot") and len(node.args) == 2:
-        a, b = ev.ev(node.args[0]), ev.ev(node.args[1])
-        if is_unknown(a) or is_unknown(b):
-            return a if is_unknown(a) else b
-        return F.sqrt(need(a) * need(a) + need(b) * need(b))
-    if d in ("math.atan2", "np.arctan2") and len(node.args) == 2:
-        a, b = ev.ev(node.args[0]), ev.ev(node.args[1])
-        if is_unknown(a) or is_unknown(b):
-            return a if is_unknown(a) else b
-        return F.fn("atan2", need(a), need(b))
-    if d in ("linalg.norm", "np.linalg.norm", "la.norm") and len(node.args) == 1:
-        v = ev.ev(node.args[0])
-        if isinstance(v, tuple):
-            tot = F.const(0)
-            for x in v:
-                tot = tot + need(x) * need(x)
-            return F.sqrt(tot)
-    if d == "np.array" and node.args and isinstance(node.args[0], (ast.List, ast.Tuple)):
-        return tuple(ev.ev(e) for e in node.args[0].elts)
-    if isinstance(node.func, ast.Attribute) and node.func.attr == "astype":
-        return ev.ev(node.func.value)
-    return NotImplemented
+def _inline(ctx):
+    return G.helpers(ctx, N2P, exclude=PUBLIC_STOPS)
+
+
+# ------------------------------------------------------------------------------------------------ R1: forward / inverse point maps
+def _euler():
+    """a general proper rotation Rz(al) Rx(be) Rz(ga): orthonormality is carried by sin^2 + cos^2 = 1 of the normal form, so T.T @ T is
+    the identity *by evaluation* and a transposed or misplaced factor is not"""
+    al, be, ga = F.sym("al"), F.sym("be"), F.sym("ga")
+
+    def rz(t):
+        c, s = F.cos(t), F.sin(t)
+        return ((c, -s, F.const(0)), (s, c, F.const(0)), (F.const(0), F.const(0), F.const(1)))
+
+    def rx(t):
+        c, s = F.cos(t), F.sin(t)
+        return ((F.const(1), F.const(0), F.const(0)), (F.const(0), c, -s), (F.const(0), s, c))
+    return G.matmul(G.matmul(rz(al), rx(be)), rz(ga))
+
+
+def _coordinfo(ctype, T):
+    org = tuple(F.sym(f"o{k}") for k in range(3))
+    return ((F.sym("cid"), F.const(ctype), F.const(0)), org) + tuple(T), org
+
+
+def _free_of(v, names):
+    return not any(G.mentions_sym(v, n) for n in names)
+
+
+class _Acc:
+    """obligations of a rule merged over the regimes that reach them (one obligation per meaning; it fails when any regime fails)"""
+
+    def __init__(self, ctx):
+        self.ctx = ctx
+        self.d = {}
+
+    def check(self, ok, msg, where=None, detail=None, nontrivial=True):
+        cur = self.d.get(msg)
+        if cur is None:
+            self.d[msg] = [bool(ok), where, None if ok else detail, nontrivial]
+        else:
+            if not ok and cur[0]:
+                cur[0], cur[1], cur[2] = False, where, detail
+            cur[3] = cur[3] or nontrivial
+        return ok
+
+    def flush(self):
+        for msg, (ok, where, detail, nt) in self.d.items():
+            self.ctx.check(ok, msg, where, detail, nontrivial=nt)
+        self.d = {}
 
 
 def r1_inverse_pair(ctx):
+    acc = _Acc(ctx)
     fwd = ctx.src.func(N2P, "_get_loc_a_basic")
     inv = ctx.src.func(N2P, "getcoordinates")
-    a = (F.sym("a0"), F.sym("a1"), F.sym("a2"))
-    pi = F.sym("pi")
-    T, origin = F.sym("T"), F.sym("org")
-    for ctype, label in ((2, "cylindrical"), (3, "spherical")):
-        def cond(test, ev, ctype=ctype):
-            t = utext(test)
-            return {"coordinfo[0,1]==1": ctype == 1, "coordinfo[0,1]==2": ctype == 2}.get(t)
+    inline = _inline(ctx)
+    T = _euler()
+    a = tuple(F.sym(f"a{k}") for k in range(3))
+    x1, x2 = a[1] * PI / 180, a[2] * PI / 180
+    atan2 = G.atan2_rule([x1, x2], [a[0], a[0] * F.sin(x1)])
 
-        def sub(node, ev):
-            t = utext(node)
-            return {"coordinfo[2:]": T, "coordinfo[1]": origin, "a[0]": a[0], "a[1]": a[1], "a[2]": a[2]}.get(t, NotImplemented)
+    def hook(name, node, ev):
+        if name in G.ATAN2 and len(node.args) == 2:
+            y, x = ev.ev(node.args[0]), ev.ev(node.args[1])
+            if G.is_rat(y) and G.is_rat(x):
+                return atan2(y, x)
+        return NotImplemented
 
-        ev = Evaluator(env={"math.pi": pi}, src=ctx.src, cond=cond, subscript=sub, call=_calls)
-        ev.run(fwd.body)
-        vec = ev.env.get("vec")
-        loc = ev.env.get("location")
-        if not isinstance(vec, tuple) or any(is_unknown(x) for x in vec):
-            ctx.error(f"_get_loc_a_basic ({label}): local vector", fwd, repr(vec))
+    for ctype, label in ((1, "rectangular"), (2, "cylindrical"), (3, "spherical")):
+        ci, org = _coordinfo(ctype, T)
+        # ---- forward
+        evs = G.explore(ctx, N2P, fwd, env={"coordinfo": ci, "a": a}, inline=inline)
+        locs = [ev.ret() for ev in evs if not ev.raised]
+        loc = locs[0] if len(locs) == 1 else None
+        if not (isinstance(loc, tuple) and len(loc) == 3 and not G.any_unknown(loc)):
+            ctx.error(f"_get_loc_a_basic ({label}): basic location", fwd, _show(locs))
             continue
-        # location = origin + T @ vec
-        if isinstance(loc, tuple):
-            ok = all(not is_unknown(x) and x.equals(origin + T * v) for x, v in zip(loc, vec))
-        else:
-            ok = False
-        ctx.check(ok, f"_get_loc_a_basic ({label}): basic location = origin + T @ (local cartesian vector)", fwd, None if ok else repr(loc))
-        # inverse: g = T.T @ (xyz_basic - xyz_coord) with T.T T = 1  ->  g = vec
-        loops = [n for n in inv.body if isinstance(n, ast.For)]
-        body = None
-        for n in ast.walk(loops[0]):
-            if isinstance(n, ast.Assign) and ast.unparse(n.targets[0]) == "g":
-                gdef = n
-        t = ast.unparse(gdef.value).replace(" ", "")
-        ok = t == "T.T@(xyz_basic-xyz_coord)"
-        ctx.check(ok, "getcoordinates: the origin is subtracted before applying T.T (inverse of `origin + T @ v` for an orthonormal T)", gdef, t)
-        chain = [n for n in ast.walk(loops[0]) if isinstance(n, ast.If) and ast.unparse(n.test).replace(" ", "") == "ctype==1"]
-        if not chain:
-            raise AnchorError("getcoordinates: type dispatch")
-        arm = chain[0].orelse[0]   # elif ctype == 2
-        stmts = arm.body if ctype == 2 else arm.orelse
-        results = []
+        vec = G.matmul(G.transpose(T), tuple(l - o for l, o in zip(loc, org)))
+        ok = _free_of(vec, ("al", "be", "ga", "o0", "o1", "o2"))
+        ctx.check(ok, f"_get_loc_a_basic ({label}): basic location = origin + T @ (local cartesian vector of the entered coordinates)", fwd,
+                  None if ok else _show(loc))
+        if ctype == 1:
+            ok = G.same(vec, a)
+            ctx.check(ok, "_get_loc_a_basic: type 1 is rectangular (the entered coordinates are the local cartesian vector)", fwd, None if ok else _show(vec))
 
-        def call2(node, ev):
-            if dotted(node.func) == "result.append" and node.args:
-                results.append(ev.ev(node.args[0]))
-                return F.const(0)
-            return _calls(node, ev)
-
-        # branch on |s| > |c| : evaluate both
-        for pick in (True, False):
-            results.clear()
-            ev2 = Evaluator(env={"g": vec, "math.pi": pi}, src=ctx.src, call=call2,
-                            cond=lambda test, ev, pick=pick: pick if "abs(s)>abs(c)" in utext(test) else None)
-            for st in stmts:
-                if isinstance(st, ast.Expr):
-                    ev2.ev(st.value)
-                else:
-                    ev2.stmt(st)
-            if not results or not isinstance(results[-1], tuple) or len(results[-1]) != 3:
-                ctx.error(f"getcoordinates ({label}): result", arm, repr(results))
+        # ---- inverse of the forward result, every regime of getcoordinates that produces a result
+        def hook2(name, node, ev, ci=ci):
+            if name == "mkusetcoordinfo":
+                ev._record(name, node)
+                return ci
+            return hook(name, node, ev)
+        env = {"gid": (loc,), "csys": F.const(7)}
+        paths = [ev for ev in G.explore(ctx, N2P, inv, env=env, hook=hook2, inline=inline) if not ev.raised]
+        if not paths:
+            ctx.error(f"getcoordinates ({label}): no regime returns", inv)
+            continue
+        sx, cx = G.atom_id(F.sin(x2)), G.atom_id(F.cos(x2))
+        for ev in paths:
+            res = ev.ret()
+            branch = _branch_tag(ev, sx, cx) if ctype == 3 else ""
+            tag = f"getcoordinates o _get_loc_a_basic ({label}{branch})"
+            if not (isinstance(res, tuple) and len(res) == 3):
+                ctx.error(f"{tag}: result", ev.returns[-1][1] if ev.returns else inv, _show(res))
                 continue
-            R, th, ph = results[-1]
-            tag = f"getcoordinates o _get_loc_a_basic ({label}{', |sin| > |cos| branch' if pick and ctype == 3 else ''})"
-            ok = not is_unknown(R) and R.equals(a[0])
-            ctx.check(ok, f"{tag}: the radius is recovered (hypot / norm of the local vector is R)", arm, None if ok else repr(R))
-            x1 = a[1] * pi / 180
-            x2 = a[2] * pi / 180
-            if ctype == 2:
-                at = _atan2_args(th) if not is_unknown(th) else None
-                ok = at is not None and at[0].equals(180 / pi) and (at[1] * F.cos(x1) - at[2] * F.sin(x1)).is_zero()
-                ctx.check(ok, f"{tag}: theta = atan2(y, x) * 180/pi returns the angle that was converted with pi/180 (argument order and reciprocal factors)", arm,
-                          None if ok else repr(th))
-                ok = not is_unknown(ph) and ph.equals(a[2])
-                ctx.check(ok, f"{tag}: z is passed through", arm, None if ok else repr(ph))
-            else:
-                at = _atan2_args(ph) if not is_unknown(ph) else None
-                ok = at is not None and at[0].equals(180 / pi) and (at[1] * F.cos(x2) - at[2] * F.sin(x2)).is_zero()
-                ctx.check(ok, f"{tag}: phi (third component) = atan2(y, x) * 180/pi is the azimuth that was entered third", arm, None if ok else repr(ph))
-                at = _atan2_args(th) if not is_unknown(th) else None
-                ok = False
-                if at is not None and at[0].equals(180 / pi):
-                    # the code divides by sin(phi') / cos(phi') of the recovered azimuth; with phi' = x2:
-                    y_, x_ = at[1], at[2]
-                    y_ = _subst_atan2_trig(y_, x2)
-                    ok = y_ is not None and (y_ * F.cos(x1) - x_ * F.sin(x1)).is_zero()
-                ctx.check(ok, f"{tag}: theta (second component) = atan2(rho, z) * 180/pi is the polar angle that was entered second", arm,
-                          None if ok else repr(th))
-            if ctype == 2:
-                break
+            where = ev.returns[-1][1]
+            if ctype == 1:
+                ok = G.same(res, a)
+                acc.check(ok, f"{tag}: identity - the origin is subtracted before the transposed transform is applied (inverse of `origin + T @ v` "
+                              "for an orthonormal T)", where, None if ok else _show(res))
+                continue
+            names = ("R", "theta", "z") if ctype == 2 else ("R", "theta (polar angle, entered second)", "phi (azimuth, entered third)")
+            how = ("hypot / norm of the local vector", "atan2(y, x) * 180/pi undoes the pi/180 conversion (argument order, reciprocal factors)",
+                   "passed through" if ctype == 2 else "atan2(y, x) * 180/pi of the in-plane components")
+            for k in range(3):
+                ok = G.same(res[k], a[k])
+                acc.check(ok, f"{tag}: {names[k]} is recovered ({how[k]})", where, None if ok else _show(res[k]))
+            if ctype == 3 and all(G.same(res[k], a[k]) for k in range(3)):
+                _divisor_guard(ctx, acc, ev, tag, x1, x2, a, where)
+    acc.flush()
 
 
-def _subst_atan2_trig(r, angle):
-    """replace sin(atan2(..)) / cos(atan2(..)) atoms by sin/cos of the known angle"""
-    r = need(r)
-    mp = {}
-    for a in list(r.n.atoms() | r.d.atoms()):
-        d = F.atom_desc(a)
-        if d[0] in ("sin", "cos"):
-            arg = F._poly_from_key(d[1])
-            if any(F.atom_desc(x)[0] == "fn" and F.atom_desc(x)[1] == "atan2" for x in arg.atoms()):
-                mp[a] = F.sin(angle) if d[0] == "sin" else F.cos(angle)
-    if not mp:
+def _branch_tag(ev, sx, cx):
+    """the regime of the spherical inverse, named by what it divides by (not by the spelling of its test)"""
+    kinds = set()
+    for num, den, node in ev.sh.divs:
+        if not G.is_rat(den):
+            continue
+        ids = {aid for aid, _ in G.atoms_of(den)}
+        if sx in ids:
+            kinds.add("sin")
+        if cx in ids:
+            kinds.add("cos")
+    if not kinds:
+        return ", regime without a quotient by sin / cos of the azimuth"
+    return ", regime with a quotient by " + " and ".join(sorted(kinds)) + " of the azimuth"
+
+
+def _divisor_guard(ctx, acc, ev, tag, x1, x2, a, where):
+    """spherical inverse: a quotient by sin(phi) or cos(phi) of the recovered azimuth is formed only on a branch that is not selected where
+    that divisor vanishes (phi = 0 / 180 deg resp. +-90 deg are ordinary points, not polar singularities)"""
+    sx, cx = G.atom_id(F.sin(x2)), G.atom_id(F.cos(x2))
+    base = {G.atom_id(a[0]): Fraction(2), G.atom_id(F.sin(x1)): Fraction(3, 5), G.atom_id(F.cos(x1)): Fraction(4, 5),
+            G.atom_id(a[1]): Fraction(30), G.atom_id(a[2]): Fraction(30), G.atom_id(PI): Fraction(22, 7)}
+    points = {"phi = 0": (0, 1), "phi = 180 deg": (0, -1), "phi = 90 deg": (1, 0), "phi = -90 deg": (-1, 0)}
+    tests = [(v, node, dec) for v, node, dec in ev.sh.asked if G.is_rat(v) and any(aid in (sx, cx) for aid, _ in G.atoms_of(v))]
+    bad, undecided = [], []
+    ndiv = 0
+    for num, den, node in ev.sh.divs:
+        if not G.is_rat(den) or not any(aid in (sx, cx) for aid, _ in G.atoms_of(den)):
+            continue
+        ndiv += 1
+        for pname, (s_, c_) in points.items():
+            asg = dict(base)
+            asg[sx], asg[cx] = Fraction(s_), Fraction(c_)
+            try:
+                if G.conc(den, asg) != 0:
+                    continue
+                taken = all((G.conc(v, asg) != 0) == dec for v, _, dec in tests)
+            except G.Undecided as e:
+                undecided.append(f"{ast.unparse(node)} at {pname}: {e}")
+                continue
+            if taken:
+                bad.append({"quotient": ast.unparse(node), "selected at": f"{pname} (sin = {s_}, cos = {c_})",
+                            "tests": [f"{ast.unparse(n)} is {d}" for _, n, d in tests]})
+    if undecided:
+        ctx.error(f"{tag}: divisor of the in-plane radius", where, undecided)
+        return
+    acc.check(not bad, f"{tag}: a quotient by sin / cos of the azimuth is formed only where the selecting test keeps that divisor away from zero",
+              where, None if not bad else {"violations": bad, "consequence": "the polar angle is computed from 0/0-like round-off at an ordinary point"},
+              nontrivial=ndiv > 0)
+
+
+# ------------------------------------------------------------------------------------------------------------ R3: rbgeom / rbmove
+def _witness_truth(symbols, point, undecided):
+    """truth of a test that speaks about `symbols` (atom ids) at the witness `point`; other tests stay undecided (the regime splits)"""
+    ids = set(symbols)
+    asg = dict(zip(symbols, point))
+
+    def truth(v, node, ev):
+        if not G.is_rat(v) or not any(aid in ids for aid, _ in G.atoms_of(v)):
+            return None
+        try:
+            return G.conc(v, asg) != 0
+        except G.Undecided as e:
+            undecided.append(f"{ast.unparse(node)}: {e}")
+            return None
+    return truth
+
+
+def _rbgeom_block(ev, fn):
+    """6x6 block of one generic grid, assembled from the stores into the returned array (directly `x[a::6, c] = v`, or through an
+    (n, 6, 6) reshaped view `b[:, i, j] = v`); raises Unsupported for a store it cannot place"""
+    out = ev.ret()
+    oid = G.ident(out) if G.is_rat(out) else None
+    if oid is None or not oid.startswith("zeros#"):
+        raise Unsupported(f"rbgeom: the returned array is not allocated by zeros() in the function ({_show(out)})")
+    block = [[F.const(0)] * 6 for _ in range(6)]
+    views = {}
+
+    def ints(x):
+        if isinstance(x, tuple):
+            ks = [G.int_of(y) for y in x]
+            return ks if all(k is not None for k in ks) else None
+        if G.is_rat(x):
+            k = G.int_of(x)
+            if k is not None:
+                return [k]
+            it = ev._const_items(x)
+            if it is not None:
+                return [G.int_of(y) for y in it]
+        return None
+
+    def is_view(name):
+        if name in views:
+            return views[name]
+        r = False
+        for iv in [e.get(f"<init:{name}>") for e in ev.sh.envs]:
+            p = G.fn_parts(iv) if G.is_rat(iv) else None
+            if p is None or p[0] not in ("call:.reshape", "call:np.reshape") or not p[1] or not G.same(p[1][0], out):
+                continue
+            dims = [G.untuple(x) for x in p[1][1:]]
+            if len(dims) == 1 and isinstance(dims[0], tuple):
+                dims = list(dims[0])
+            if len(dims) == 3 and G.int_of(dims[1]) == 6 and G.int_of(dims[2]) == 6:
+                r = True
+        views[name] = r
         return r
 
-    def sp(p):
-        res = F.const(0)
-        for m, c in p.t.items():
-            term = F.const(c)
-            for x, e in m:
-                term = term * ((mp[x] if x in mp else F.Rat(F.Poly.atom(x))) ** e)
-            res = res + term
-        return res
-    return sp(r.n) / sp(r.d)
+    for name, ix, val, st in ev.cells:
+        if name is None:
+            raise Unsupported(f"rbgeom: store through an expression `{ast.unparse(st)}`")
+        if isinstance(val, tuple) or is_unknown(val):
+            if name == oid or is_view(name):
+                raise Unsupported(f"rbgeom: stored value of `{ast.unparse(st)}` is not a per-grid scalar ({_show(val)})")
+            continue
+        if name == oid:
+            if not (isinstance(ix, tuple) and len(ix) == 2):
+                raise Unsupported(f"rbgeom: store `{ast.unparse(st)}`")
+            sl = G.as_slice(ix[0]) if G.is_rat(ix[0]) else None
+            cols = ints(ix[1])
+            if sl is None or sl[1] is not None or sl[2] is None or G.int_of(sl[2]) != 6 or cols is None:
+                raise Unsupported(f"rbgeom: store `{ast.unparse(st)}` is not `[a::6, c]`")
+            a = 0 if sl[0] is None else G.int_of(sl[0])
+            if a is None or not 0 <= a < 6 or len(cols) != 1 or not 0 <= cols[0] < 6:
+                raise Unsupported(f"rbgeom: store `{ast.unparse(st)}`")
+            block[a][cols[0]] = val
+        elif is_view(name):
+            if not (isinstance(ix, tuple) and len(ix) == 3):
+                raise Unsupported(f"rbgeom: store `{ast.unparse(st)}`")
+            sl = G.as_slice(ix[0]) if G.is_rat(ix[0]) else None
+            ri, ci = ints(ix[1]), ints(ix[2])
+            if sl != (None, None, None) or ri is None or ci is None:
+                raise Unsupported(f"rbgeom: store `{ast.unparse(st)}` is not `[:, i, j]`")
+            if len(ri) != len(ci):
+                if len(ri) == 1:
+                    ri = ri * len(ci)
+                elif len(ci) == 1:
+                    ci = ci * len(ri)
+                else:
+                    raise Unsupported(f"rbgeom: store `{ast.unparse(st)}`")
+            for i, j in zip(ri, ci):
+                if not (0 <= i < 6 and 0 <= j < 6):
+                    raise Unsupported(f"rbgeom: store `{ast.unparse(st)}`")
+                block[i][j] = val
+    return tuple(tuple(r) for r in block)
 
 
-def r2_dispatch(ctx):
-    fwd = ctx.src.func(N2P, "_get_loc_a_basic")
-    t = utext(fwd)
-    ok = "ifcoordinfo[0,1]==1:" in t and "ifcoordinfo[0,1]==2:" in t
-    ctx.check(ok, "_get_loc_a_basic: type 1 rectangular, type 2 cylindrical, otherwise spherical", fwd)
-    inv = ctx.src.func(N2P, "getcoordinates")
-    t = utext(inv)
-    ok = "ifctype==1:" in t and "elifctype==2:" in t and "ctype=coordinfo[0,1].astype(np.int64)" in t
-    ctx.check(ok, "getcoordinates: the same type codes select the inverse maps", inv)
-    rb = ctx.src.func(N2P, "rbgeom_uset")
-    t = utext(rb)
-    ok = "cyl=(uset.loc[slice(None),2,'y']==2).values" in t.replace("(slice(None),2)", "slice(None),2") and \
-        "sph=(uset.loc[slice(None),2,'y']==3).values" in t.replace("(slice(None),2)", "slice(None),2")
-    ctx.check(ok, "rbgeom_uset: cylindrical grids are those whose output-system type is 2, spherical 3", rb)
-    # azimuth rotations are guarded against the polar axis with BOTH in-plane coordinates
-    n = 0
-    for c in ast.walk(rb):
-        if isinstance(c, ast.Call) and dotted(c.func) == "math.atan2":
-            n += 1
-            args = {utext(a) for a in c.args}
-            guard = None
-            for anc in ancestors(c):
-                if isinstance(anc, ast.If) and any(c is y for x in anc.body for y in ast.walk(x)):
-                    guard = anc
-                    break
-            gt = ast.unparse(guard.test).replace(" ", "") if guard is not None else ""
-            ok = guard is not None and all(f"abs({a})" in gt for a in args) and ">" in gt
-            ctx.check(ok, f"rbgeom_uset: `{ast.unparse(c)}` is skipped only when both of its arguments vanish (the point is on the polar axis)", c,
-                      None if ok else {"guard": gt, "consequence": "a grid at theta = 180 deg (y = 0, x < 0) is off the axis but would not be rotated into its local frame"})
-    ctx.check(n == 3, "rbgeom_uset: three azimuth/polar angle computations are guarded", rb, n, nontrivial=False)
-    # the 2x2 rotation built from the angle is applied to translations and rotations alike
-    t = utext(rb)
-    ok = t.count("t=np.array([[c,s],[-s,c]])") == 2 and t.count("rb2[i:i+2]=t@rb2[i:i+2]") == 2 and t.count("rb2[i+3:i+5]=t@rb2[i+3:i+5]") == 2
-    ctx.check(ok, "rbgeom_uset: the in-plane rotation [[c, s], [-s, c]] is applied to the translational and the rotational rows of the grid, "
-                  "in the cylindrical and the spherical fix-up alike", rb)
-    ok = "t=np.array([[s,0,c],[c,0,-s],[0,1,0]])" in t and "rb2[i:i+3]=t@rb2[i:i+3]" in t and "rb2[i+3:i+6]=t@rb2[i+3:i+6]" in t
-    ctx.check(ok, "rbgeom_uset: the spherical frame [e_R, e_theta, e_phi] rotation is applied to both row triplets", rb)
+def _rb_expected(x, y, z):
+    o, i = F.const(0), F.const(1)
+    return ((i, o, o, o, z, -y), (o, i, o, -z, o, x), (o, o, i, y, -x, o), (o, o, o, i, o, o), (o, o, o, o, i, o), (o, o, o, o, o, i))
 
 
 def r3_rbgeom(ctx):
     fn = ctx.src.func(N2P, "rbgeom")
-    want = {(1, 3): ("-", 2), (2, 3): ("+", 1), (0, 4): ("+", 2), (2, 4): ("-", 0), (0, 5): ("-", 1), (1, 5): ("+", 0)}
-    got = {}
-    for st in walk_no_nested(fn):
-        if isinstance(st, ast.Assign) and isinstance(st.targets[0], ast.Subscript) and ast.unparse(st.targets[0].value) == "rbmodes" \
-                and isinstance(st.targets[0].slice, ast.Tuple):
-            rs, cs = st.targets[0].slice.elts
-            if not isinstance(rs, ast.Slice) or not isinstance(cs, ast.Constant):
-                continue
-            row = ast.literal_eval(rs.lower) if rs.lower is not None else 0
-            v = st.value
-            sign = "+"
-            if isinstance(v, ast.UnaryOp) and isinstance(v.op, ast.USub):
-                sign = "-"
-                v = v.operand
-            if isinstance(v, ast.Subscript) and ast.unparse(v.value) == "grids":
-                comp = ast.literal_eval(v.slice.elts[1])
-                got[(row, cs.value)] = (sign, comp)
-    ok = got == want
-    ctx.check(ok, "rbgeom: rotational columns are the cross product theta x r: (0,-z,y), (z,0,-x), (-y,x,0)", fn, None if ok else {str(k): v for k, v in got.items()})
-    t = utext(fn)
-    ok = "foriinrange(6):rbmodes[i::6,i]=1.0" in t.replace("\n", "")
-    ctx.check(ok, "rbgeom: unit translation / rotation of every grid in its own component", fn)
-    # the reference shift
-    shifts = [st for st in ast.walk(fn) if isinstance(st, ast.Assign) and ast.unparse(st.value).replace(" ", "") == "grids-refpoint"]
-    ok = len(shifts) == 1
-    if ctx.check(ok, "rbgeom: coordinates are taken relative to the reference point", fn):
-        g = parent(shifts[0])
-        if isinstance(g, ast.If):
-            tt = ast.unparse(g.test).replace(" ", "")
-            ok = tt in ("np.any(refpoint!=[0,0,0])", "np.any(refpoint!=0)", "(refpoint!=[0,0,0]).any()", "np.any(refpoint)")
-            ctx.check(ok, "rbgeom: the shift is skipped only when every coordinate of the reference point is zero", g,
-                      None if ok else {"guard": tt, "consequence": "a reference point with one zero coordinate (e.g. [0, 3.5, -1.25]) would be ignored"})
-    ok = "ifnp.size(refpoint)==1:grids=grids-grids[refpoint]" in t.replace("\n", "")
-    ctx.check(ok, "rbgeom: a scalar reference selects that grid's location", fn)
+    inline = _inline(ctx)
+    g = tuple(F.sym(f"g{k}") for k in "xyz")
+    p = tuple(F.sym(f"p{k}") for k in "xyz")
+    r = tuple(F.sym(f"r{k}") for k in "xyz")
+    gids = {G.atom_id(a): b for a, b in zip(g, p)}
+
+    def sub_hook(base, ix, node, ev):
+        # `grids` is an (n, 3) array whose rows are treated alike: one generic row stands for it
+        if G.is_vector(base) and len(base) == 3 and isinstance(ix, tuple) and len(ix) == 2 and G.is_rat(ix[0]) \
+                and G.as_slice(ix[0]) == (None, None, None) and G.int_of(ix[1]) is not None and not G.any_unknown(base):
+            return base[G.int_of(ix[1])]
+        if G.is_vector(base) and len(base) == 3 and G.is_rat(ix) and G.same(ix, F.sym("refpoint")) and not G.any_unknown(base):
+            return G.rebuild(base, gids)      # the row of the reference grid
+        return NotImplemented
+
+    def hook(name, node, ev):
+        if name == "np.reshape" and len(node.args) == 2:
+            v = ev.ev(node.args[0])
+            if G.is_vector(v) and len(v) == 3:
+                return v
+        if isinstance(node.func, ast.Attribute) and node.func.attr == "reshape":
+            v = ev.ev(node.func.value)
+            if G.is_vector(v) and len(v) == 3:
+                return v
+        return NotImplemented
+
+    def blocks(env, truth, what):
+        evs = [ev for ev in G.explore(ctx, N2P, fn, truth=truth, hook=hook, sub_hook=sub_hook, env=env, inline=inline) if not ev.raised]
+        out = []
+        for ev in evs:
+            try:
+                out.append(_rbgeom_block(ev, fn))
+            except Unsupported as e:
+                ctx.error(f"rbgeom ({what}): 6x6 block of a grid", fn, str(e))
+                return None
+        if not out:
+            ctx.error(f"rbgeom ({what}): no regime returns", fn)
+            return None
+        return out
+
+    # ---- scalar reference: the index of a grid
+    def scalar_truth(v, node, ev):
+        def atom(x):
+            q = G.fn_parts(x)
+            if q is not None and q[0] == "cmp:Eq" and any(G.fn_parts(y) is not None and G.fn_parts(y)[0] in ("call:np.size", "call:len") for y in q[1]) \
+                    and any(G.int_of(y) == 1 for y in q[1]):
+                return True
+            return None
+        return G.truth_of(v, atom)
+    bl = blocks({"grids": g}, scalar_truth, "scalar reference")
+    if bl is not None:
+        want = _rb_expected(*[a - b for a, b in zip(g, p)])
+        ok = all(G.same(b, want) for b in bl)
+        ctx.check(ok, "rbgeom: a scalar reference selects that grid's location: every grid gets [[I, -[(x - x_ref) x]], [0, I]] (unit translation / "
+                      "rotation in its own component, rotational columns theta x r = (0,-z,y), (z,0,-x), (-y,x,0))", fn, None if ok else _show(bl[0], 900))
+    # ---- vector reference: one generic point and the witness table for the short cut
+    rids = [G.atom_id(a) for a in r]
+    table = [("a generic reference point", (Fraction(7), Fraction(-2), Fraction(3))),
+             ("[0, 3.5, -1.25]", (Fraction(0), Fraction(7, 2), Fraction(-5, 4))), ("[1, 0, 0]", (Fraction(1), Fraction(0), Fraction(0))),
+             ("[0, 0, 2]", (Fraction(0), Fraction(0), Fraction(2))), ("[1, -1, 0]", (Fraction(1), Fraction(-1), Fraction(0))),
+             ("[-2, 0, 3]", (Fraction(-2), Fraction(0), Fraction(3))), ("[0, 0, 0]", (Fraction(0), Fraction(0), Fraction(0)))]
+    want = _rb_expected(*[a - b for a, b in zip(g, r)])
+    bad, first, generic = [], True, None
+    for label, w in table:
+        und = []
+        bl = blocks({"grids": g, "refpoint": r}, _witness_truth(rids, w, und), f"reference {label}")
+        if und:
+            ctx.error(f"rbgeom (reference {label}): test on the reference point", fn, und)
+            continue
+        if bl is None:
+            continue
+        leaf = {i: F.const(c) for i, c in zip(rids, w)}
+        if first:
+            generic = bl[0]
+        ok = all(G.same(b, generic) or G.same(G.rebuild(b, leaf), G.rebuild(generic, leaf)) for b in bl)
+        if first:
+            first = False
+            ok = all(G.same(b, want) for b in bl)
+            ctx.check(ok, "rbgeom: coordinates are taken relative to a vector reference point: every grid gets "
+                      "[[I, -[(x - ref) x]], [0, I]]", fn, None if ok else _show(bl[0], 900))
+        elif not ok:
+            bad.append({"reference": label, "block": _show(bl[0], 400)})
+    ctx.check(not bad, "rbgeom: the shift is skipped only when every coordinate of the reference point is zero", fn,
+              None if not bad else {"counterexamples": bad, "consequence": "a reference point with one zero coordinate would be ignored"})
+    # ---- rbmove
     mv = ctx.src.func(N2P, "rbmove")
-    ok = "returnrb@rbgeom(oldref,newref)" in utext(mv)
-    ctx.check(ok, "rbmove: modes about a new reference = modes @ rbgeom(old reference about new reference)", mv)
+    evs = [ev for ev in G.explore(ctx, N2P, mv, inline=inline) if not ev.raised]
+    ok = bool(evs)
+    detail = None
+    for ev in evs:
+        calls = [c for c in ev.calls if c[0] == "rbgeom"]
+        if len(calls) != 1:
+            ok, detail = False, f"{len(calls)} calls of rbgeom"
+            break
+        from .sem import place
+        args = place(calls[0][1], calls[0][2], ["grids", "refpoint"])
+        val = ev.ev(calls[0][3])
+        good = G.same(args.get("grids"), F.sym("oldref")) and G.same(args.get("refpoint"), F.sym("newref")) \
+            and G.same(ev.ret(), G.matmul(F.sym("rb"), val))
+        if not good:
+            ok, detail = False, _show(ev.ret())
+    ctx.check(ok, "rbmove: modes about a new reference = modes @ rbgeom(old reference about new reference)", mv, detail)
 
 
 RULES = [
     ("C14-R1", r1_inverse_pair, 10),
-    ("C14-R2", r2_dispatch, 8),
-    ("C14-R3", r3_rbgeom, 6),
+    ("C14-R3", r3_rbgeom, 4),
 ]
 LEVEL = "other"
-EXPLANATION = ("Static: composing getcoordinates' cylindrical and spherical arms with _get_loc_a_basic's yields the identity on [R, theta, z] / [R, theta, phi] "
-               "(symbolic: hypot/norm via sin^2+cos^2, atan2 argument order via the tangent identity, reciprocal degree factors, origin/T ordering); type "
-               "dispatch agreement; polar-axis guards mention both in-plane coordinates; rbgeom's cross-product table and reference shift.")
-MANIFEST = {
-    "text": "Thin partial claim decided statically: (R1) forward/inverse point maps are algebraic inverses for cylindrical and spherical systems; (R2) the same type "
-            "codes dispatch every coordinate-type branch, the rbgeom_uset azimuth/polar rotations are guarded only at the true polar axis and applied to both row "
-            "triplets; (R3) rbgeom is theta x r about the reference point, the shift is skipped only for the zero vector, rbmove composes with rbgeom. "
-            "Not decided: reference-chain resolution, rbcoords, formrbe3, replace_basic_cs.",
-    "note": "Trusted: CPython ast; verifier/e2_formula.py; atan2 is checked through the tangent identity y cos(a) = x sin(a) (quadrant assumed from R > 0, sin(theta) > 0 away "
-            "from the polar singularities, as in the property's domain); T is taken orthonormal.",
-    "technique": "static symbolic composition of forward and inverse coordinate maps; structural guard/dispatch rules",
-}
+EXPLANATION = ""
+MANIFEST = {}
